@@ -54,24 +54,105 @@ theorem balanced_head {t : Tag} {ts : List Tag} (h : balancedFrom 0 (t :: ts) = 
 section
 variable (env : Env) (I : Table) (enc : Enc) (dec : Dec) (conf : Nat → Val → Bool)
 
+/-- what `NameValue` needs to know about the `DateTime` class it embeds: two
+    application-tagged elements, date then time -/
+def DateTimeOK (dt : Nat) : Prop :=
+  ∀ v, conf dt v = true → ∃ l1 d1 l2 d2, v = .seq [some (.prim l1 d1), some (.prim l2 d2)] ∧
+    enc dt v = .ok [⟨.app, 10, l1, d1⟩, ⟨.app, 11, l2, d2⟩] ∧
+    ∀ rest, dec dt (⟨.app, 10, l1, d1⟩ :: ⟨.app, 11, l2, d2⟩ :: rest) = .ok (v, rest)
+
+/-- the hand-written `NameValue` codec -/
+theorem goodNameValue (dt : Nat) (hdt : DateTimeOK enc dec conf dt)
+    (v : Val) (hc : conformsDef env conf (.nameValue dt) v = true) :
+    ∃ ts, encodeNameValue enc dt v = .ok ts ∧ HeadOK [.ctx 0] false ts ∧
+      ∀ rest, Safe [.anyApp] rest → decodeNameValue dec dt (ts ++ rest) = .ok (v, rest) := by
+  -- the value has the shape `.seq [some (.prim lvt data), value]`
+  have hshape : ∃ lvt data value, v = .seq [some (.prim lvt data), value] := by
+    cases v with
+    | seq fs =>
+      cases fs with
+      | nil => simp [conformsDef] at hc
+      | cons x fs1 =>
+        cases x with
+        | none => simp [conformsDef] at hc
+        | some nm =>
+          cases nm with
+          | prim lvt data =>
+            cases fs1 with
+            | nil => simp [conformsDef] at hc
+            | cons value fs2 =>
+              cases fs2 with
+              | cons _ _ => simp [conformsDef] at hc
+              | nil => exact ⟨lvt, data, value, rfl⟩
+          | _ => simp [conformsDef] at hc
+    | _ => simp [conformsDef] at hc
+  obtain ⟨lvt, data, value, rfl⟩ := hshape
+  simp only [conformsDef] at hc
+  simp only [Bool.and_eq_true] at hc
+  obtain ⟨hname, hval⟩ := hc
+  obtain ⟨t, ht, hcls, hnum, t', ht', hp⟩ := prim_ctx_roundtrip 0 hname
+  have hctx : isCtx 0 t = true := by simp [isCtx, hcls, hnum]
+  have hnotapp : ∀ (rest : List Tag), Safe [.anyApp] rest → ∀ n r, rest = n :: r → n.cls ≠ .app := by
+    intro rest hs n r hr
+    subst hr
+    rcases Safe.cons_iff.mp hs with h | h
+    · rw [h]; simp
+    · have := h .anyApp (by simp)
+      simpa [Pat.matches] using this
+  cases value with
+  | none =>
+    refine ⟨[t], by simp [encodeNameValue, ht], ⟨by simp [hcls], .ctx 0, by simp, by simpa [Pat.matches] using hctx⟩, ?_⟩
+    intro rest hs
+    cases rest with
+    | nil => simp [decodeNameValue, hctx, ht', hp]
+    | cons n r =>
+      have := hnotapp _ hs n r rfl
+      simp [decodeNameValue, hctx, ht', hp, this]
+  | some x =>
+    cases x with
+    | atom a l d =>
+      simp only [Bool.and_eq_true, decide_eq_true_eq] at hval
+      refine ⟨[t, ⟨.app, a, l, d⟩], by simp [encodeNameValue, ht],
+        ⟨by simp [hcls], .ctx 0, by simp, by simpa [Pat.matches] using hctx⟩, ?_⟩
+      intro rest hs
+      cases rest with
+      | nil => simp [decodeNameValue, hctx, ht', hp, atom_roundtrip hval.1 hval.2]
+      | cons n r =>
+        have := hnotapp _ hs n r rfl
+        simp [decodeNameValue, hctx, ht', hp, isApp, this, atom_roundtrip hval.1 hval.2]
+    | seq fs =>
+      simp only at hval
+      obtain ⟨l1, d1, l2, d2, hv, he, hd⟩ := hdt (.seq fs) hval
+      refine ⟨t :: [⟨.app, 10, l1, d1⟩, ⟨.app, 11, l2, d2⟩], by simp [encodeNameValue, ht, he],
+        ⟨by simp [hcls], .ctx 0, by simp, by simpa [Pat.matches] using hctx⟩, ?_⟩
+      intro rest _
+      simp [decodeNameValue, hctx, ht', hp, isApp, hd rest]
+    | prim _ _ => simp at hval
+    | tags _ => simp at hval
+    | choice _ _ => simp at hval
+    | list _ => simp at hval
+
 /-- ONE CLASS, given everything below it -/
 theorem goodDef (τ : Nat) (d : TyDef)
-    (hinfo : look I τ = infoOf env I d) (hok : defOK env I τ d = true) (hsup : (look I τ).sup = true)
-    (hgood : ∀ j, j < τ → (look I j).sup = true → Good I enc dec conf j)
+    (hinfo : look I τ = infoOf env I d) (hok : defOK env I τ d = true)
+    (hgood : ∀ j, j < τ → Good I enc dec conf j)
+    (hff : ∀ j, j < τ → FailFast I dec j)
     (hstop : ∀ r j, (kindOf env r = .seqOf j ∨ kindOf env r = .listOf j) → ListStop dec j)
+    (hdt : ∀ dt, dt < τ →
+      env[dt]? = some (.seq [⟨.prim 10, none, false⟩, ⟨.prim 11, none, false⟩]) → DateTimeOK enc dec conf dt)
     (v : Val) (hc : conformsDef env conf d v = true) :
     ∃ ts, encodeDef env enc d v = .ok ts ∧
       HeadOK (look I τ).first (look I τ).nullable ts ∧
       ∀ rest, Safe (look I τ).confus rest → decodeDef env dec d (ts ++ rest) = .ok (v, rest) := by
-  rw [hinfo] at hsup ⊢
+  rw [hinfo]
   cases d with
   | seq fs =>
     cases v with
     | seq vs =>
       simp only [conformsDef] at hc
       simp only [defOK, Bool.and_eq_true] at hok
-      simp only [infoOf] at hsup ⊢
-      obtain ⟨ts, he, hh, hd⟩ := goodFields env I enc dec conf τ hgood hstop fs vs hok.1 hsup hok.2 hc
+      simp only [infoOf]
+      obtain ⟨ts, he, hh, hd⟩ := goodFields env I enc dec conf τ hgood hff hstop fs vs hok.1 hok.2 hc
       exact ⟨ts, by simpa [encodeDef] using he, hh, fun rest hs => by simp [decodeDef, hd rest hs]⟩
     | _ => simp [conformsDef] at hc
   | choice alts =>
@@ -79,14 +160,14 @@ theorem goodDef (τ : Nat) (d : TyDef)
     | choice i x =>
       simp only [conformsDef] at hc
       simp only [defOK, Bool.and_eq_true] at hok
-      simp only [infoOf] at hsup ⊢
+      simp only [infoOf]
       cases hi : alts[i]? with
       | none => simp [hi] at hc
       | some a =>
         rw [hi] at hc
         simp only at hc
         obtain ⟨t, r, he, hcl, hp, hd⟩ :=
-          goodAlts env I enc dec conf τ hgood alts 0 i a x hok.1 hsup hok.2 hi hc
+          goodAlts env I enc dec conf τ hgood alts 0 i a x hok.1 hok.2 hi hc
         refine ⟨t :: r, by simp [encodeDef, hi, he], ⟨hcl, hp⟩, ?_⟩
         intro rest _
         have := hd rest
@@ -98,8 +179,8 @@ theorem goodDef (τ : Nat) (d : TyDef)
     | list vs =>
       simp only [conformsDef, Bool.and_eq_true] at hc
       simp only [defOK] at hok
-      simp only [infoOf] at hsup ⊢
-      obtain ⟨ts, he, hnil, hhd, hd⟩ := goodElems env I enc dec conf τ elem hgood hok hsup vs hc.1
+      simp only [infoOf]
+      obtain ⟨ts, he, hnil, hhd, hd⟩ := goodElems env I enc dec conf τ elem hgood hok vs hc.1
       have hfix : ∀ n, fixed = some n → vs.length = n := by
         intro n hn; have := hc.2; rw [hn] at this; simpa using this
       refine ⟨ts, ?_, ?_, ?_⟩
@@ -140,7 +221,46 @@ theorem goodDef (τ : Nat) (d : TyDef)
         have hstop' : Stop rest := Safe.anyTag hs (by simp)
         simp [decodeDef, anyDecode, anyTake_balanced ts 0 rest hc hstop']
     | _ => simp [conformsDef] at hc
-  | nameValue dt => simp [infoOf] at hsup
+  | nameValue dt =>
+    simp only [defOK, Bool.and_eq_true, decide_eq_true_eq] at hok
+    have henv : env[dt]? = some (.seq [⟨.prim 10, none, false⟩, ⟨.prim 11, none, false⟩]) := by
+      have := hok.2
+      split at this
+      · assumption
+      · simp at this
+    obtain ⟨ts, he, hh, hd⟩ := goodNameValue env enc dec conf dt (hdt dt hok.1 henv) v hc
+    simp only [infoOf]
+    refine ⟨ts, ?_, hh, fun rest hs => ?_⟩
+    · cases v <;> simpa [encodeDef] using he
+    · simpa [decodeDef] using hd rest hs
+
+/-- a class that announces it (`Info.ff`) refuses every other first tag with a caught error -/
+theorem failFastDef (τ : Nat) (d : TyDef)
+    (hinfo : look I τ = infoOf env I d) (hok : defOK env I τ d = true)
+    (hff : ∀ j, j < τ → FailFast I dec j)
+    (h : (look I τ).ff = true) (t : Tag) (r : List Tag) (hcl : t.cls ≠ .closing)
+    (hn : ∀ p ∈ (look I τ).first, p.matches t = false) :
+    ∃ e, decodeDef env dec d (t :: r) = .error e ∧ (e = .decoding ∨ e = .invalidTag) := by
+  rw [hinfo] at h hn
+  cases d with
+  | seq fs =>
+    simp only [infoOf] at h hn
+    simp only [defOK, Bool.and_eq_true] at hok
+    cases fs with
+    | nil => simp at h
+    | cons f fs' =>
+      simp only at h
+      simp only [List.all_cons, Bool.and_eq_true] at hok
+      obtain ⟨e, he, hee⟩ := fields_failfast env I dec τ f fs' hff hok.1.1 h t r hcl
+        (fun p hp => hn p (by simp [firstFields, hp]))
+      exact ⟨e, by simp [decodeDef, he], hee⟩
+  | choice alts =>
+    simp only [infoOf] at hn
+    simp only [defOK, Bool.and_eq_true] at hok
+    exact ⟨.invalidTag, by simp [decodeDef, decodeChoice, hcl, alts_failfast env I dec τ t r alts 0 hok.1 hn], Or.inr rfl⟩
+  | list k elem fixed => simp [infoOf] at h
+  | any => simp [infoOf] at h
+  | nameValue dt => simp [infoOf] at h
 end
 
 end BacVerif.C03
